@@ -460,7 +460,13 @@ func (x *Exec) runBody(fn *ssa.Function, c *Contract, params, free []Value, st *
 	if c == nil && inlineDepth > 0 && x.C != nil {
 		// an inlined callee without a contract of its own (deferred closures): the
 		// verified function's call-site assertions and channel rules apply inside it
-		c = &Contract{Key: FuncKey(fn), CallAsserts: x.C.CallAsserts, Loops: map[int]*LoopSpec{}, Props: map[string]bool{}, RecvInv: nil}
+		inh := map[string][]*Clause{}
+		for k, v := range x.C.CallAsserts {
+			if !strings.HasPrefix(k, "recv ") && !strings.HasPrefix(k, "send ") {
+				inh[k] = v // only call-site assertions are inherited (send/recv ordinals are per function)
+			}
+		}
+		c = &Contract{Key: FuncKey(fn), CallAsserts: inh, Loops: map[int]*LoopSpec{}, Props: map[string]bool{}, RecvInv: nil}
 	}
 	f := &frame{x: x, fn: fn, c: c, nodes: map[string]*node{}, regs: map[string]Value{}, params: params, free: free,
 		headOf: map[*ssa.BasicBlock]*loopInfo{}, inlineDepth: inlineDepth, callSeq: map[string]int{}}
